@@ -10,7 +10,7 @@
 
    State  = classes in definition order (class id = position) + one registry (tag -> class) per
             annotation site / Config root, created empty.
-   Ops    = Define parents own_tag tagger_tags own_required_fields | Decode site tag? present_fields.
+   Ops    = Define parents own_tags(per key name) tagger_tags own_required_fields | Decode site present_keys present_fields.
    This file holds only executable definitions (it must keep running when a proof breaks). *)
 From Coq Require Import List Arith Bool.
 Import ListNotations.
@@ -20,7 +20,7 @@ Definition tag := nat.
 (* A class as the dispatcher sees it. *)
 Record cls := Cls {
   c_parents : list nat;   (* ids of the direct bases inside the modelled forest, in declaration order *)
-  c_tags    : list tag;   (* value of the discriminator attribute in the class's OWN __dict__ ([] = none, else one) *)
+  c_tags    : list (nat * tag);   (* OWN __dict__ of the class: discriminator field name (id) -> tag value; one entry per name at most *)
   c_ttags   : list tag;   (* result of variant_tagger_fn(cls) (a list registers every element; a bare value = singleton) *)
   c_req     : list nat    (* all required (default-less) init fields incl. inherited ones: abstract acceptance data *)
 }.
@@ -53,7 +53,8 @@ Record site := Site {
   s_field  : bool;       (* Discriminator.field is not None *)
   s_tagger : bool;       (* variant_tagger_fn is not None *)
   s_config : bool;       (* class-level (Config.discriminator) wiring; then s_bases = [the declaring class] *)
-  s_codec  : bool        (* site of a codec (non-nailed builder): nested class-level registries live on the codec *)
+  s_codec  : bool;       (* site of a codec (non-nailed builder): nested class-level registries live on the codec *)
+  s_fid    : nat         (* Discriminator.field: id of the key name (dispatchers of one hierarchy may use different keys) *)
 }.
 
 (* builder.py:396-401 rebuilds the Discriminator without include_supertypes *)
@@ -70,7 +71,16 @@ Definition variants (cl: list cls) (s: site) : list nat :=
   (if s_sub s then flat_map (all_sub cl) (s_bases s) else [])
   ++ (if eff_sup s then s_bases s else []).
 
-Definition tags_of (s: site) (k: cls) : list tag := if s_tagger s then c_ttags k else c_tags k.
+(* dict lookup by key name *)
+Fixpoint assoc (f: nat) (l: list (nat * tag)) : option tag :=
+  match l with
+  | [] => None
+  | (g, t) :: r => if Nat.eqb f g then Some t else assoc f r
+  end.
+
+Definition tags_of (s: site) (k: cls) : list tag :=
+  if s_tagger s then c_ttags k
+  else match assoc (s_fid s) (c_tags k) with Some t => [t] | None => [] end.
 
 (* registry = Python dict tag -> class; newest binding first, lookup takes the first hit *)
 Definition reg := list (tag * nat).
@@ -116,7 +126,7 @@ Fixpoint find_idx {A} (p: A -> bool) (l: list A) (i: nat) : option (nat * A) :=
 (* variants whose unpacker is (re)built by a refill: those that registered a tag (every one with a tagger) *)
 Definition built (cl: list cls) (s: site) : list nat :=
   if s_tagger s then variants cl s
-  else filter (fun v => match c_tags (nth v cl dummy_cls) with [] => false | _ => true end) (variants cl s).
+  else filter (fun v => match assoc (s_fid s) (c_tags (nth v cl dummy_cls)) with None => false | _ => true end) (variants cl s).
 
 Definition reset_nested (top: nat) (vs: list nat) (rs: list (rkey * reg)) : list (rkey * reg) :=
   fold_left (fun rs v => ((top, S v), []) :: rs) vs rs.
@@ -130,8 +140,10 @@ Fixpoint find_map {A B} (f: A -> option B) (l: list A) : option B :=
   end.
 
 Inductive op :=
-| Define (parents: list nat) (own_tag: list tag) (tagger_tags: list tag) (own_req: list nat)
-| Decode (site_id: nat) (t: option tag) (present: list nat).
+| Define (parents: list nat) (own_tags: list (nat * tag)) (tagger_tags: list tag) (own_req: list nat)
+| Decode (site_id: nat) (keys: list (nat * tag)) (present: list nat).
+(* [keys]: the discriminator keys PRESENT in the input with their values (a key present with a falsy value or None
+   is present); [present]: the other fields present (no-field mode acceptance) *)
 
 Inductive outcome := OInst (c: nat) | OMissing | ONotFound | OBadSite.
 
@@ -142,14 +154,14 @@ Section Step.
   Variable acc : cls -> list nat -> bool.
   Variable sites : list site.
 
-  Definition define (cl: list cls) (ps: list nat) (tg tu rq: list nat) : cls :=
+  Definition define (cl: list cls) (ps: list nat) (tg: list (nat * tag)) (tu rq: list nat) : cls :=
     let ps' := filter (fun p => p <? length cl) ps in
     Cls ps' tg tu (rq ++ flat_map (fun p => c_req (nth p cl dummy_cls)) ps').
 
   (* Generated dispatcher with registry key k and settings s.  `registry[tag].from_dict(value)` enters the
      chosen class: a class that declares its own class-level discriminator is a dispatcher again
      (over its strict subclasses, with its own registry); any other class yields an instance. *)
-  Fixpoint dispatch (fuel: nat) (top: nat) (codec: bool) (k: rkey) (s: site) (x: st) (t: tag) : st * outcome :=
+  Fixpoint dispatch (fuel: nat) (top: nat) (codec: bool) (k: rkey) (s: site) (x: st) (inp: list (nat * tag)) (t: tag) : st * outcome :=
     match fuel with
     | 0 => (x, OBadSite)
     | S f =>
@@ -158,7 +170,12 @@ Section Step.
           match config_site sites c with
           | None => (x, OInst c)
           | Some (j, sj) =>
-              if s_field sj then dispatch f top codec (if codec then (top, S c) else (j, 0)) sj x t
+              if s_field sj then
+                match assoc (s_fid sj) inp with
+                | None => (x, OMissing)  (* inner `value[field]` -> MissingDiscriminatorError: a LookupError but NOT a KeyError,
+                                            so the outer `except (KeyError, AttributeError)` lets it through *)
+                | Some t' => dispatch f top codec (if codec then (top, S c) else (j, 0)) sj x inp t'
+                end
               else (x, ONotFound)        (* not generated: a no-field dispatcher below a field one *)
           end in
         let r := get_reg k (regs x) in
@@ -201,15 +218,15 @@ Section Step.
   Definition step (x: st) (o: op) : st * option outcome :=
     match o with
     | Define ps tg tu rq => (St (classes x ++ [define (classes x) ps tg tu rq]) (regs x), None)
-    | Decode i t present =>
+    | Decode i inp present =>
         match nth_error sites i with
         | None => (x, Some OBadSite)
         | Some s =>
             if negb (site_ok s (length (classes x))) then (x, Some OBadSite)
             else if s_field s then
-              match t with
+              match assoc (s_fid s) inp with
               | None => (x, Some OMissing)                    (* value[field] -> KeyError *)
-              | Some t => let (x', o) := dispatch (S (S (length (classes x)))) i (s_codec s) (i, 0) s x t in (x', Some o)
+              | Some t => let (x', o) := dispatch (S (S (length (classes x)))) i (s_codec s) (i, 0) s x inp t in (x', Some o)
               end
             else (x, Some (decode_nofield s x present))
         end
@@ -269,10 +286,13 @@ Fixpoint uniq_flags (sites: list site) (cl: list cls) (ops: list op) : list (opt
   match ops with
   | [] => []
   | Define ps tg tu rq :: r => None :: uniq_flags sites (cl ++ [define cl ps tg tu rq]) r
-  | Decode i t _ :: r =>
-      (match nth_error sites i, t with
-       | Some s, Some t => if s_field s then Some (tag_uniqueb cl s t) else None
-       | _, _ => None
+  | Decode i inp _ :: r =>
+      (match nth_error sites i with
+       | Some s => match assoc (s_fid s) inp with
+                   | Some t => if s_field s then Some (tag_uniqueb cl s t) else None
+                   | None => None
+                   end
+       | None => None
        end) :: uniq_flags sites cl r
   end.
 
